@@ -508,6 +508,102 @@ theorem C05_slice_subList_bridge {α : Type} (xs : List α) (s e : Nat) :
   rw [List.drop_take]
 
 
+/-! ### the two levels meet
+
+What an operation of the heap model (`L.*`, the definitions every theorem above is about and the translated Go methods are
+proved equal to) leaves in its receiver is what the array-level operation leaves in the corresponding list — for every
+capacity, every growth policy. -/
+
+private theorem abs_lt {α} {ls : List (List α)} {c : Nat} {xs : List α} (hc : ls[c]? = some xs) : c < ls.length := by
+  rcases Nat.lt_or_ge c ls.length with h2 | h2
+  · exact h2
+  · rw [List.getElem?_eq_none h2] at hc; cases hc
+
+private theorem step_abs {α} (cfg : Slices.Cfg α) (sorted : List α → List α) (σ : Slices.SHeap α) (hw : σ.WF)
+    (op : Slices.Op α) : (Slices.step cfg sorted σ op).1.abs = (Slices.astep sorted σ.abs op).1 := by
+  rw [← Slices.step_refines cfg sorted σ hw op]
+
+/-- the two levels meet: what `L.insert` leaves in the receiver of the heap model is what the array-level `Insert`
+leaves in the corresponding list, whatever its capacity and the growth policy -/
+theorem C05_slice_bridge_insert (h : Heap) (a : Nat) (i : Int) (g : GoVal) (hs : g.isScalar = true)
+    (hl : h.isList a = true) (h0 : 0 ≤ i) (hn : i ≤ (h.items a).length)
+    (cfg : Slices.Cfg Val) (sorted : List Val → List Val) (σ : Slices.SHeap Val) (hw : σ.WF) (c : Nat)
+    (hc : σ.abs[c]? = some (h.items a)) :
+    (Slices.step cfg sorted σ (.insert c i.toNat (scalarVal g))).1.abs[c]? = some ((L.insert h a i g).1.items a) := by
+  have hr := Slices.step_refines cfg sorted σ hw (.insert c i.toNat (scalarVal g))
+  have h1 : (Slices.step cfg sorted σ (.insert c i.toNat (scalarVal g))).1.abs
+      = (Slices.astep sorted σ.abs (.insert c i.toNat (scalarVal g))).1 := by rw [← hr]
+  rw [h1, C05_insert_spec h a i g hs h0 hn, (C05_setItems_view h a _ hl).1]
+  have hle : ¬ i.toNat > (h.items a).length := by omega
+  have hlt : c < σ.abs.length := by
+    rcases Nat.lt_or_ge c σ.abs.length with h2 | h2
+    · exact h2
+    · rw [List.getElem?_eq_none h2] at hc; cases hc
+  simp only [Slices.astep, hc, hle, if_false, List.getElem?_set_self hlt]
+
+theorem C05_slice_bridge_replace (h : Heap) (a : Nat) (i : Int) (g : GoVal) (hs : g.isScalar = true)
+    (hl : h.isList a = true) (h0 : 0 ≤ i) (hn : i < (h.items a).length)
+    (cfg : Slices.Cfg Val) (sorted : List Val → List Val) (σ : Slices.SHeap Val) (hw : σ.WF) (c : Nat)
+    (hc : σ.abs[c]? = some (h.items a)) :
+    (Slices.step cfg sorted σ (.replace c i.toNat (scalarVal g))).1.abs[c]? = some ((L.replace h a i g).1.items a) := by
+  rw [step_abs cfg sorted σ hw, C05_replace_spec h a i g hs h0 hn, (C05_setItems_view h a _ hl).1]
+  have hlt' : i.toNat < (h.items a).length := by omega
+  simp only [Slices.astep, hc, hlt', if_true, List.getElem?_set_self (abs_lt hc)]
+
+theorem C05_slice_bridge_add (h : Heap) (a : Nat) (gs : List GoVal) (hs : ∀ g ∈ gs, g.isScalar = true)
+    (hl : h.isList a = true)
+    (cfg : Slices.Cfg Val) (sorted : List Val → List Val) (σ : Slices.SHeap Val) (hw : σ.WF) (c : Nat)
+    (hc : σ.abs[c]? = some (h.items a)) :
+    (Slices.step cfg sorted σ (.add c (gs.map scalarVal))).1.abs[c]? = some ((L.add h a gs).1.items a) := by
+  rw [step_abs cfg sorted σ hw, C05_add_spec h a gs hs, (C05_setItems_view h a _ hl).1]
+  simp only [Slices.astep, hc, List.getElem?_set_self (abs_lt hc)]
+
+theorem C05_slice_bridge_pop (h : Heap) (a : Nat) (hl : h.isList a = true) (hn : 0 < (h.items a).length)
+    (cfg : Slices.Cfg Val) (sorted : List Val → List Val) (σ : Slices.SHeap Val) (hw : σ.WF) (c : Nat)
+    (hc : σ.abs[c]? = some (h.items a)) :
+    (Slices.step cfg sorted σ (.pop c)).1.abs[c]? = some ((L.pop h a).1.items a) := by
+  rw [step_abs cfg sorted σ hw, C05_pop_spec h a hn, (C05_setItems_view h a _ hl).1]
+  have hne : ¬ (h.items a).length = 0 := by omega
+  simp only [Slices.astep, hc, hne, if_false, List.getElem?_set_self (abs_lt hc)]
+
+theorem C05_slice_bridge_clear (h : Heap) (a : Nat) (hl : h.isList a = true)
+    (cfg : Slices.Cfg Val) (sorted : List Val → List Val) (σ : Slices.SHeap Val) (hw : σ.WF) (c : Nat)
+    (hc : σ.abs[c]? = some (h.items a)) :
+    (Slices.step cfg sorted σ (.clear c)).1.abs[c]? = some ((L.clear h a).1.items a) := by
+  rw [step_abs cfg sorted σ hw, C05_clear_spec h a, (C05_setItems_view h a _ hl).1]
+  simp only [Slices.astep, hc, List.getElem?_set_self (abs_lt hc)]
+
+theorem C05_slice_bridge_reverse (h : Heap) (a : Nat) (hl : h.isList a = true)
+    (cfg : Slices.Cfg Val) (sorted : List Val → List Val) (σ : Slices.SHeap Val) (hw : σ.WF) (c : Nat)
+    (hc : σ.abs[c]? = some (h.items a)) :
+    (Slices.step cfg sorted σ (.reverse c)).1.abs[c]? = some ((L.reverse h a).1.items a) := by
+  rw [step_abs cfg sorted σ hw, C05_reverse_spec h a, (C05_setItems_view h a _ hl).1]
+  simp only [Slices.astep, hc, List.getElem?_set_self (abs_lt hc)]
+
+theorem C05_slice_bridge_delete (h : Heap) (a : Nat) (i : Int) (hl : h.isList a = true)
+    (h0 : 0 ≤ i) (hn : i < (h.items a).length)
+    (cfg : Slices.Cfg Val) (sorted : List Val → List Val) (σ : Slices.SHeap Val) (hw : σ.WF) (c : Nat)
+    (hc : σ.abs[c]? = some (h.items a)) :
+    (Slices.step cfg sorted σ (.delete c [i.toNat])).1.abs[c]? = some ((L.delete h a [i]).1.items a) := by
+  rw [step_abs cfg sorted σ hw, C05_delete_single_spec h a i h0 hn, (C05_setItems_view h a _ hl).1]
+  have hlt' : i.toNat < (h.items a).length := by omega
+  have hlen := abs_lt hc
+  have hget : σ.abs[c] = h.items a := by
+    have := List.getElem?_eq_getElem hlen
+    rw [hc] at this; exact (Option.some.inj this).symm
+  have hms : [i.toNat].mergeSort (fun x y => decide (x ≤ y)) = [i.toNat] := by simp
+  simp only [Slices.astep, hms, List.reverse_cons, List.reverse_nil, List.nil_append, Slices.adeleteLoop, hc, hlt',
+    if_true, List.getElem?_set_self hlen]
+
+/-- `Concat`: the new list of the heap model holds what the new list of the array-level model holds -/
+theorem C05_slice_bridge_concat (h : Heap) (a : Nat) (r : Ref) (hlr : h.isList r.addr = true)
+    (cfg : Slices.Cfg Val) (sorted : List Val → List Val) (σ : Slices.SHeap Val) (hw : σ.WF) (c d : Nat)
+    (hc : σ.abs[c]? = some (h.items a)) (hd : σ.abs[d]? = some (h.items r.addr)) :
+    (Slices.step cfg sorted σ (.concat c d)).1.abs[σ.cells.length]? = some ((L.concat h a r).1.items h.length) := by
+  rw [step_abs cfg sorted σ hw, (C05_concat_spec h a r hlr).1]
+  have hl : σ.abs.length = σ.cells.length := by simp [Slices.SHeap.abs]
+  simp [Slices.astep, hc, hd, ← hl, Heap.items]
+
 #print axioms C05_parseVal_scalar
 #print axioms C05_setItems_view
 #print axioms C05_insert_spec
@@ -554,5 +650,13 @@ theorem C05_slice_subList_bridge {α : Type} (xs : List α) (s e : Nat) :
 #print axioms C05_slice_frame
 #print axioms C05_slice_concatOld_breaks
 #print axioms C05_slice_subList_bridge
+#print axioms C05_slice_bridge_insert
+#print axioms C05_slice_bridge_replace
+#print axioms C05_slice_bridge_add
+#print axioms C05_slice_bridge_pop
+#print axioms C05_slice_bridge_clear
+#print axioms C05_slice_bridge_reverse
+#print axioms C05_slice_bridge_delete
+#print axioms C05_slice_bridge_concat
 
 end Anytype
